@@ -68,11 +68,11 @@ type PanicInfo struct {
 
 // Replica is one node: an App over its own DB.
 type Replica struct {
-	Name  string
-	DB    dbm.DB
-	App   *saoapp.App
-	home  string
-	Dirty map[string]bool
+	Name     string
+	DB       dbm.DB
+	App      *saoapp.App
+	home     string
+	Dirty    map[string]bool
 	lastHash map[string]uint64
 	genesis  []byte
 	// process-lifetime bookkeeping
